@@ -184,6 +184,19 @@ def run(c, prog, ctx):
     ob("O4.address-parsers", "from_bech32 uses SegwitHrpstring::new of blech32 (blinded) and of the bech32 crate (unblinded)",
        sorted(ctor) == ["bech32::primitives::decode::SegwitHrpstring::<'s>::new", "blech32::decode::SegwitHrpstring::<'s>::new"], "constructors %s" % ctor, fb.where(), fb.path)
 
+    # the string the decoders see is the caller's, untouched: any normalisation (case folding, trimming) in front of the decoder
+    # turns rejected corruptions (re-cased characters are "other characters") into accepted strings
+    pfb = Prov(fb.body)
+    args_new = [show(pfb.operand(t["args"][0]), -9) for bi, t in fb.body.calls(lambda t: "SegwitHrpstring" in callee_name(t) and callee_name(t).endswith("::new"))]
+    ups = []
+    for fnp in ("address::Address::parse_with_params", "<address::Address as std::str::FromStr>::from_str"):
+        fu = prog.fn(fnp)
+        pu = Prov(fu.body)
+        ups += [(fnp.split("::")[-1], show(pu.operand(t["args"][0]), -9)) for bi, t in fu.body.calls(lambda t: callee_name(t).endswith("Address::from_bech32"))]
+    ob("O4.string-unmodified", "FromStr / parse_with_params hand their argument to from_bech32, and from_bech32 to both decoders, unchanged",
+       len(args_new) == 2 and set(args_new) == {"arg1"} and len(ups) >= 3 and all(a == "arg1" for _, a in ups),
+       "decoder arguments %s; from_bech32 arguments %s" % (args_new, ups), fb.where(), fb.path)
+
     # O6: the one decidable part of the human-readable-part clause. HRPs are compared case-insensitively and the checksum is
     # computed over the lower-cased HRP, so changing the case of HRP letters must be caught elsewhere: by the mixed-case rule
     # over the WHOLE string (HRP and data part). Per-character decision table of check_characters.
